@@ -80,7 +80,7 @@ Cat(ss) == FlattenSeq(ss)
 AbsInit(cfg) ==
   [cfg |-> cfg, sp |-> EmptyFn, rt |-> EmptyFn, ctx |-> EmptyFn, sc |-> EmptyFn, ls |-> EmptyFn,
    att |-> EmptyFn, exp |-> {}, opt |-> {}, dl |-> {}, never |-> {}, claims |-> {}, hints |-> {}, cyc |-> {},
-   fl |-> EmptyFn, cmds |-> EmptyFn, cut |-> {}, qs |-> {}, pk |-> EmptyFn, exc |-> {}, got |-> <<>>, gotrecs |-> <<>>, tm |-> EmptyFn, ad |-> EmptyFn, polled |-> EmptyFn, ovl |-> FALSE, free |-> {}, heap |-> None, viol |-> <<>>]
+   fl |-> EmptyFn, cmds |-> EmptyFn, cut |-> {}, qs |-> {}, pk |-> EmptyFn, exc |-> {}, got |-> <<>>, gotrecs |-> <<>>, tm |-> EmptyFn, ad |-> EmptyFn, polled |-> EmptyFn, ovl |-> FALSE, free |-> {}, heap |-> None, cbs |-> {}, viol |-> <<>>]
 
 Recording(a) == a.cfg.enabled /\ a.cfg.ready
 
@@ -317,11 +317,17 @@ TopFrame(a, t) == Last(Frames(a, t))
 
 \* closing a local-parent scope: its local spans become deliverable under the scope's span, the
 \* attachments made directly in the scope are now complete attachments of that span
+\* closing a scope while local spans recorded in it are still open: they are closed with it (their
+\* handles become inert); position of the scope's frame, 0 if it is not there
+FrameOf(fr, n) == LET S == {i \in DOMAIN fr : fr[i].n = n /\ fr[i].k \in {"lp", "lc"}} IN IF S = {} THEN 0 ELSE CHOOSE i \in S : TRUE
+OnlyLocalsAbove(fr, i) == \A j \in (i + 1)..Len(fr) : fr[j].k = "ls"
+CutFrames(a, t, i) == [a EXCEPT !.ctx = Put(@, t, SubSeq(Frames(a, t), 1, i - 1))]
+
 CallDropGuard(a, e) ==
-  LET fr == Frames(a, e.t) IN
-  IF fr = <<>> \/ TopFrame(a, e.t).n # e.g THEN Viol(a, "HARNESS", "ill-nested-guard", e)
-  ELSE LET s == a.sc[e.g] a1 == PopFrame(a, e.t) IN
-       IF ~TopFrame(a, e.t).live \/ ~s.smp THEN a1
+  LET fr == Frames(a, e.t) i == FrameOf(fr, e.g) IN
+  IF i = 0 \/ ~OnlyLocalsAbove(fr, i) THEN Viol(a, "HARNESS", "ill-nested-guard", e)
+  ELSE LET s == a.sc[e.g] a1 == CutFrames(a, e.t, i) IN
+       IF ~fr[i].live \/ ~s.smp THEN a1
        ELSE LET a2 == [a1 EXCEPT !.att = Put(@, s.h, Get(@, s.h, <<>>) \o TopAtts(s.ents, e.t))] IN
             Unsampled(Entitle(a2, SetRecords(s.ents, s.h, s.lin, e.t, e.t, e.g)), SpanNames(s.ents), s.lin)
 
@@ -331,9 +337,9 @@ CallLcStart(a, e) ==
             !.sc = Put(@, e.c, [k |-> "lc", h |-> None, lin |-> <<>>, smp |-> TRUE, ents |-> <<>>, t |-> e.t])]
 
 CallLcCollect(a, e) ==
-  LET fr == Frames(a, e.t) IN
-  IF fr = <<>> \/ TopFrame(a, e.t).n # e.c THEN Viol(a, "HARNESS", "ill-nested-collector", e)
-  ELSE [PopFrame(a, e.t) EXCEPT !.ls = Put(@, e.ls, [ents |-> IF TopFrame(a, e.t).live THEN a.sc[e.c].ents ELSE <<>>, t |-> e.t])]
+  LET fr == Frames(a, e.t) i == FrameOf(fr, e.c) IN
+  IF i = 0 \/ ~OnlyLocalsAbove(fr, i) THEN Viol(a, "HARNESS", "ill-nested-collector", e)
+  ELSE [CutFrames(a, e.t, i) EXCEPT !.ls = Put(@, e.ls, [ents |-> IF fr[i].live THEN a.sc[e.c].ents ELSE <<>>, t |-> e.t])]
 
 CallLcDrop(a, e) ==
   LET fr == Frames(a, e.t) IN
@@ -352,7 +358,8 @@ CallLEnter(a, e) ==
 
 CallLExit(a, e) ==
   LET fr == Frames(a, e.t) IN
-  IF fr = <<>> \/ TopFrame(a, e.t).n # e.l THEN Viol(a, "HARNESS", "ill-nested-local-span", e)
+  IF ~\E i \in DOMAIN fr : fr[i].n = e.l THEN a      \* its scope was closed with the span still open: the handle is inert
+  ELSE IF TopFrame(a, e.t).n # e.l THEN Viol(a, "HARNESS", "ill-nested-local-span", e)
   ELSE LET a1 == PopFrame(a, e.t) s == ScopeOf(a, e.t) IN
        IF ~TopFrame(a, e.t).live THEN a1
        ELSE [a1 EXCEPT !.sc[s].ents = [i \in DOMAIN @ |-> IF @[i].n = e.l /\ @[i].k = "span" THEN [@[i] EXCEPT !.open = FALSE] ELSE @[i]]]
@@ -586,7 +593,9 @@ TakeRecord(a, rec) ==
                             IF cb = "missing-attachment" /\ cid \in a.cut THEN "cut"
                             ELSE IF cb \in {"missing-attachment", "duplicate-attachment"} /\ twin THEN "twin" ELSE None)
            tb == TimeBad(a, rec)
-           a5 == IF tb = "ok" THEN a4 ELSE Viol(a4, "C18", tb, [rec |-> rec, tm |-> a.tm[rec.name]]) IN
+           a5 == IF tb = "ok" THEN a4
+                 ELSE LET v == Viol(a4, "C18", tb, [rec |-> rec, tm |-> a.tm[rec.name]]) IN
+                      IF rec.name \in a.cbs THEN Viol(v, "C17", "open-span-not-closed-at-collection-time", [rec |-> rec, tm |-> a.tm[rec.name]]) ELSE v IN
        [a5 EXCEPT !.got = Append(@, e), !.gotrecs = Append(@, rec)]
 
 RECURSIVE TakeAll(_, _, _)
@@ -703,8 +712,9 @@ Call(a, e) ==
               [] e.op \in {"levent", "sevent"} -> TmBegin(a, e.evt.name, e)
               [] e.op = "drop" -> TmEnd(a, e.h, e)
               [] e.op = "lexit" -> TmEnd(a, e.l, e)
-              [] e.op = "dropg" /\ Has(a.sc, e.g) -> TmAll(a, OpenIn(a, e.g), e, FALSE)
-              [] e.op \in {"lccollect", "lcdrop"} /\ Has(a.sc, e.c) -> TmAll(a, OpenIn(a, e.c), e, FALSE)
+              \* cbs: local spans closed by the end of their scope (C17: "closed at the collection time")
+              [] e.op = "dropg" /\ Has(a.sc, e.g) -> [TmAll(a, OpenIn(a, e.g), e, FALSE) EXCEPT !.cbs = @ \cup OpenIn(a, e.g)]
+              [] e.op \in {"lccollect", "lcdrop"} /\ Has(a.sc, e.c) -> [TmAll(a, OpenIn(a, e.c), e, FALSE) EXCEPT !.cbs = @ \cup OpenIn(a, e.c)]
               [] OTHER -> a IN
   Call0(a1, e)
 
